@@ -117,8 +117,15 @@ def sub_names(ctx, shard, n):
 
 
 def sub_names_long(ctx, shard, n):
-    strat = st.builds(lambda l, a: l + a, st.sampled_from(T.LETTERS), st.text(alphabet="#b", min_size=9, max_size=60))
+    from vlib.strats import any_accidentals, lopsided_accidentals
+    strat = st.builds(lambda l, a: l + a, st.sampled_from(T.LETTERS), st.text(alphabet="#b", min_size=9, max_size=60) | lopsided_accidentals(60))
     ctx.given("name", check_name, strat, 1500 if ctx.quick else 20000)
+    # pairs far beyond the enumerated bound, half of them on one letter (a whole octave or more of accidentals apart)
+    letter = st.sampled_from(T.LETTERS)
+    acc = any_accidentals(40)
+    pair = st.one_of(st.tuples(letter, acc, acc).map(lambda t: [t[0] + t[1], t[0] + t[2]]),
+                     st.tuples(letter, acc, letter, acc).map(lambda t: [t[0] + t[1], t[2] + t[3]]))
+    ctx.given("pair", check_pair, pair, 1500 if ctx.quick else 20000)
 
 
 def sub_pairs(ctx, shard, n):
